@@ -232,7 +232,10 @@ class Renderer:
                 return t["selfname"], f"{stars}{fname}{suffix}"
             t = t["target"]
         if inline and t["k"] in ("struct", "union"):
-            return f"{t['k']} {self.body(t)}", f"{stars}{fname}{suffix}"
+            # inline == "tag": the structure declared in place has a tag (struct Inner { ... } name;) - a name of its own that is
+            # not registered with the cstruct object
+            tag = f"{t['name']} " if inline == "tag" else ""
+            return f"{t['k']} {tag}{self.body(t)}", f"{stars}{fname}{suffix}"
         self.ensure(t)
         return type_name(t), f"{stars}{fname}{suffix}"
 
@@ -264,7 +267,7 @@ class Renderer:
                 continue
             if f.get("inline"):
                 # a named member whose structure type is declared in place: struct { ... } name;  (also behind arrays / pointers)
-                tn, d = self.decl(ft, f["name"], inline=True)
+                tn, d = self.decl(ft, f["name"], inline=f["inline"])
                 lines.append(f"{tn} {d};")
                 continue
             tn, d = self.decl(ft, f["name"])
@@ -640,7 +643,7 @@ class Gen:
                 arr = self.array_of(elem, refs if refs else None, last, union)
                 fields.append(field(fname, arr))
                 if elem["k"] == "struct" and cfg.get("inline", True) and rnd.random() < 0.25:
-                    fields[-1]["inline"] = True      # struct { ... } name[n];
+                    fields[-1]["inline"] = True if rnd.random() < 0.6 else "tag"     # struct { ... } name[n];  /  struct Tag { ... } name[n];
                 cur[0] = None
                 allint = False
             elif r < w[3] and cfg["ptr"]:
@@ -648,7 +651,7 @@ class Gen:
                 inl = False
                 if depth > 0 and cfg["nested"] and cfg.get("inline", True) and rnd.random() < 0.12:
                     tgt = self.struct(depth - 1)     # pointer to a structure, declared in place half of the time: struct { ... } *name;
-                    inl = rnd.random() < 0.5
+                    inl = rnd.choice([False, False, True, "tag"])
                 t = t_ptr(tgt)
                 if rnd.random() < 0.15:
                     t = t_ptr(t)           # pointer to pointer
@@ -656,7 +659,7 @@ class Gen:
                     t = t_arr(t, L_fixed(rnd.randrange(1, 3)))
                 fields.append(field(fname, t))
                 if inl:
-                    fields[-1]["inline"] = True
+                    fields[-1]["inline"] = inl
                 cur[0] = None
                 allint = False
             elif r < w[4] and cfg["void"]:
@@ -672,7 +675,7 @@ class Gen:
                     # the members of an anonymous member are members of this structure: later lengths may name them (finding F39)
                     refs += folded_u8(sub)
                 if not sub_anon and cfg.get("inline", True) and rnd.random() < 0.2:
-                    fields[-1]["inline"] = True
+                    fields[-1]["inline"] = True if rnd.random() < 0.6 else "tag"
                 cur[0] = None
                 if not sub.get("allint"):
                     allint = False
